@@ -19,12 +19,12 @@ import (
 func init() { Registry["C09"] = c09 }
 
 type c9case struct {
-	name   string
-	src    string
-	nodes  int         // exact node count of the unoptimised program (0: unknown)
-	want   interface{} // closed-form result
-	maxOps int         // largest operand count in the source (before flattening)
-	flatOps int        // largest operand count after flattening (ReduceNesting)
+	name    string
+	src     string
+	nodes   int         // exact node count of the unoptimised program (0: unknown)
+	want    interface{} // closed-form result
+	maxOps  int         // largest operand count in the source (before flattening)
+	flatOps int         // largest operand count after flattening (ReduceNesting)
 }
 
 func rep1(tok string, n int) string { return strings.TrimSpace(strings.Repeat(tok+" ", n)) }
@@ -241,8 +241,8 @@ func (f c9fetch) Get(_ eval.VariableKey, s string) (eval.Value, error) {
 	}
 	return f.x, nil
 }
-func (f c9fetch) Set(eval.VariableKey, string, eval.Value) error   { return nil }
-func (f c9fetch) Cached(eval.VariableKey, string) bool             { return true }
+func (f c9fetch) Set(eval.VariableKey, string, eval.Value) error { return nil }
+func (f c9fetch) Cached(eval.VariableKey, string) bool           { return true }
 
 func c09(r *rep.Run) {
 	r.SetBudget(150e9)
@@ -262,11 +262,11 @@ func c09(r *rep.Run) {
 
 	// ---- (1) operand counts ----
 	type opjob struct {
-		name string
-		src  string
-		k    int // operand count after flattening
-		kRaw int // largest operand count as written
-		want interface{}
+		name   string
+		src    string
+		k      int // operand count after flattening
+		kRaw   int // largest operand count as written
+		want   interface{}
 		boolOp bool
 	}
 	var ojobs []opjob
@@ -654,7 +654,9 @@ func c09(r *rep.Run) {
 								got = h.TryEval(c.e, c.f)
 							}
 							atomic.AddInt64(&ctxCases, 1)
-							dd := func() map[string]interface{} { return caseDesc(src, c.o, p.Vars, vals, nil, map[string]interface{}{"entry": mode, "pending_operands": d}) }
+							dd := func() map[string]interface{} {
+								return caseDesc(src, c.o, p.Vars, vals, nil, map[string]interface{}{"entry": mode, "pending_operands": d})
+							}
 							if got.Panic != nil {
 								r.Violate("stack-panic", sprintf("%d%s", d, got.Site), sprintf("evaluation panics with %d pending operands: %v (at %s)", d, got.Panic, got.Site), dd())
 								continue
